@@ -19,6 +19,18 @@ CLAIMED = {
             "Python int = mathematical integer, logger calls and exception message formatting have no effect. "
             "with_s3_retry is applied at its proved contract inside _get_range.",
             "DESIGN.md 4/C20"),
+    "C13": ("Proof that the pruning decision of filters._file_may_match is sound for every operator, for arbitrary bounds, "
+            "literals and row values (NULL, NaN, +-inf included; kinds int, float, str, bool and the two mixed numeric pairs; "
+            "unbounded number of conjuncts and IN-list length, by loop invariant and witness instantiation), that "
+            "prune_files_by_bounds keeps exactly the may-match files and looks bounds up under the table schema's id for the "
+            "column (ID-MAP), that _encode_bound/_decode_bound round-trip value and Python type for every supported bound type, and "
+            "that _compute_column_bounds stores the column's min/max under its own field id. Lifting per-conjunct soundness to "
+            "equality of pruned and unpruned results is a stated meta-argument over T-arrow distributivity.",
+            "Trusted: T-arrow comparison/min-max semantics (sampled against pyarrow by the replay scripts, not proved), Python "
+            "float comparison = order of extended reals with NaN unordered, JSON and isoformat round trips, Avro map<string> "
+            "round trip between create_manifest_file and read_manifest_file (T-codec). Mixed int/float pairs are proved under "
+            "|int| <= 2^53 (pyarrow raises beyond). Bounded: none for SOUND; ID-MAP/BOUNDS are unbounded via accumulator rule.",
+            "DESIGN.md 4/C13"),
 }
 
 NA_REASON = {
